@@ -7,7 +7,7 @@ from the documented behaviour of the interface (docstrings of _IntegerBase.py / 
 """
 from vf.pyvc.contracts import Contract, ClassContract
 from .base import base_registry
-from ._intcommon import add_entropy_model, add_lemmas, lemma_units, class_value, LEMMA_TEXT   # noqa  (registers the spec forms)
+from ._intcommon import add_entropy_model, add_lemmas, lemma_units, class_value, sys_untouched, LEMMA_TEXT   # noqa  (registers the spec forms)
 
 M = 'Crypto.Math.'
 IN = M + '_IntegerNative.IntegerNative'
@@ -178,9 +178,10 @@ def static_contracts(reg, cls, impl_cls=None, help_=None):
     help_ = help_ or {}
     T = operand(cls)
     out = []
-    out.append(reg.add(Contract(impl + '.__init__', params={'value': T}, raises={},
-                                ensures={'value': 'ival(self) == ival(value)'}, modifies=FRAME['native'] if '_mpz' not in str(help_.get('frame')) else None,
-                                self_type='obj:' + cls, **help_.get('__init__', {}))))
+    if not help_.get('skip_init'):
+        out.append(reg.add(Contract(impl + '.__init__', params={'value': T}, raises={},
+                                    ensures={'value': 'ival(self) == ival(value)'}, modifies=FRAME['native'],
+                                    self_type='obj:' + cls, **help_.get('__init__', {}))))
     out.append(reg.add(Contract(impl + '.from_bytes', params={'cls': class_value(cls), 'byte_string': 'bytes', 'byteorder': ORDER}
                                 if impl == IN else {'byte_string': 'bytes', 'byteorder': ORDER},
                                 raises={'ValueError': ('iff', 'byteorder not in ("big", "little")')},
@@ -211,7 +212,7 @@ EXACT = '(%s is not None)' % EB
 NB = '((%s - 1) // 8 + 1)' % BITS             # bytes needed: ceil(bits / 8)
 SB = '(8 - (%s * 8 - %s))' % (NB, BITS)       # significant bits of the first byte, 1..8
 # "all entropy through randfunc": with a caller tape the system RNG is not read (a caller may also pass the system tape itself)
-SYS_UNTOUCHED = '(%s is not systape()) ==> systape().g_pos == old(systape().g_pos)' % TP
+SYS_UNTOUCHED = sys_untouched(TP)
 
 
 def random_contracts(reg, cls=IN):
@@ -284,7 +285,7 @@ def random_contracts(reg, cls=IN):
                    'invariant': ['type(norm_candidate) is cls',
                                  'randfunc.g_pos >= %s + %s' % (P0, LNB),
                                  'ival(norm_candidate) == %s' % cand.format(T='randfunc', N=LNB, B='bits_needed'),
-                                 '(randfunc is not systape()) ==> systape().g_pos == old(systape().g_pos)']}},
+                                 '(randfunc.g_id != 0) ==> systape().g_pos == old(systape().g_pos)']}},
         # proof steps over locals (assert_at style)
         lemmas={'exit': {'bits': 'bits_needed == %s' % RBITS,
                          'cand': 'ival(norm_candidate) == %s' % cand.format(T=TP, N=RNB, B=RBITS)}},
@@ -294,10 +295,16 @@ def random_contracts(reg, cls=IN):
 
 
 def registry(self_class=IN):
+    """self_class: the class of `self` and of Integer operands when the IntegerNative methods are verified (IntegerCustom
+    inherits them: contracts/integer_gmp.py)"""
     reg = add_lemmas(add_entropy_model(base_registry()))
     reg.add(ClassContract(IN, fields={'_value': 'int'}))
     reg.add(ClassContract(IC, fields={'_value': 'int'}))
     interface_contracts(reg, IN, FRAME['native'], self_type=('obj:' + self_class) if self_class != IN else None, per_method=NATIVE_HELP)
+    if self_class != IN:
+        static_contracts(reg, self_class, impl_cls=IN)
+        random_contracts(reg, self_class)
+        return reg
     # (finding F1, repaired in the tree by 97d6d02d: IntegerNative._mult_modulo_bytes(int, IntegerNative, int) raised
     # TypeError while the other two back ends returned the product; the clause below is for int|Integer operands)
     static_contracts(reg, IN)
